@@ -18,7 +18,7 @@ ALTS = ["greater", "less", "two-sided"]
 CALT = {"greater": "Greater", "less": "Less", "two-sided": "TwoSided"}
 
 
-def cases(tier, rng, dist):
+def _cases(tier, rng, dist):
     NH = 8 if tier == "quick" else 14
     for N in range(1, NH + 1):
         for x in range(0, N + 3):
@@ -59,7 +59,7 @@ def cases(tier, rng, dist):
         yield {"f": "binom", "x": rng.randint(0, n), "n": n, "pa": pa, "pb": den - pa, "alt": rng.choice(ALTS)}
 
 
-def run(c):
+def _run(c):
     # the form in which the caller holds the counts: Python ints, NumPy integer scalars, or 0-d / one-element integer arrays
     # (e.g. the result of arr.sum(keepdims=...) or an element view); the SAME objects are passed to a second call
     names = ["x", "N", "n", "G"] if c["f"] == "hyper" else ["x", "n"]
@@ -142,3 +142,30 @@ def generated(tier):
     """source-derived obligations (G3 tables / G4 formulas): regenerated from /repo's current source text on every run"""
     from ..translate.tables import obligations
     return obligations("C14")
+
+
+# ---- failure paths (round 12): every third case is preceded by calls that the library rejects, or that fail inside a user
+# callable; they raise on the unchanged tree and must leave nothing behind (common.fail_first) ----
+
+from permute.utils import binom_conf_interval as _bci, hypergeom_conf_interval as _hci
+
+
+def failing_calls(c):
+    k = c["ff"] % 4
+    return [[("binom_conf_interval, one iteration only", lambda: _bci(10, 3, maxiter=1)),
+             ("binom_conf_interval, unknown keyword", lambda: _bci(10, 3, tol=1e-10)),
+             ("hypergeom_conf_interval, bad alternative", lambda: _hci(5, 2, 12, alternative="both")),
+             ("hypergeometric, impossible arguments", lambda: hypergeometric(5, 10, 2, 6))][k],
+            ("binomial_p, x > n", lambda: binomial_p(10, 5, 0.5))]
+
+
+def cases(tier, rng, dist):
+    return mark_ff(_cases(tier, rng, dist))
+
+
+def run(c):
+    ff = fail_first(failing_calls(c)) if "ff" in c else None
+    o = _run(c)
+    if ff is not None and isinstance(o, dict):
+        o["ff"] = ff
+    return o
